@@ -524,6 +524,84 @@ func run(t *T) {
 		}
 		checkFile(t, r, f, opts, optClass)
 	}
+	runForeignTraces(t)
+}
+
+// runForeignTraces: files whose entries carry trace numbers that do not start with their batch's ODFI (numbers
+// assigned by a gateway operator), legal under CustomTraceNumbers / BypassOriginValidation — the options under which
+// Create must leave trace numbers alone, also on the JSON decode path, for standard and IAT batches alike.
+func runForeignTraces(t *T) {
+	n := t.Budget(300)
+	for i := 0; i < n; i++ {
+		r := t.R.Fork(uint64(700000 + i))
+		o := gen.Opts{MinBatches: 1, MaxBatches: 1 + r.Intn(3), MaxEntries: 1 + r.Intn(3), MaxAddenda: 2}
+		switch i % 3 {
+		case 0:
+			o.SECs = []string{ach.IAT}
+		case 1:
+			o.SECs = []string{ach.IAT, ach.PPD, ach.CCD}
+		default:
+			o.SECs = []string{ach.PPD, ach.CCD, ach.WEB, ach.CTX}
+		}
+		f, err := gen.File(r, o)
+		if err != nil {
+			continue
+		}
+		opts := &ach.ValidateOpts{}
+		optClass := ""
+		switch r.Intn(3) {
+		case 0:
+			opts.CustomTraceNumbers, optClass = true, "CustomTraceNumbers"
+		case 1:
+			opts.BypassOriginValidation, optClass = true, "BypassOriginValidation"
+		default:
+			opts.CustomTraceNumbers, opts.BypassOriginValidation, optClass = true, true, "CustomTraceNumbers+BypassOriginValidation"
+		}
+		f.SetValidation(opts)
+		prefix := fmt.Sprintf("%08d", 10000000+r.Intn(89999999))
+		seq := 1 + r.Intn(50)
+		for _, b := range f.Batches {
+			b.SetValidation(opts)
+			for _, e := range b.GetEntries() {
+				e.TraceNumber = fmt.Sprintf("%s%07d", prefix, seq)
+				seq += 1 + r.Intn(3)
+			}
+		}
+		for j := range f.IATBatches {
+			b := &f.IATBatches[j]
+			b.SetValidation(opts)
+			for _, e := range b.GetEntries() {
+				e.TraceNumber = fmt.Sprintf("%s%07d", prefix, seq)
+				seq += 1 + r.Intn(3)
+			}
+		}
+		ok := true
+		func() {
+			defer func() {
+				if recover() != nil {
+					ok = false
+				}
+			}()
+			for _, b := range f.Batches {
+				if b.Create() != nil {
+					ok = false
+				}
+			}
+			for j := range f.IATBatches {
+				if f.IATBatches[j].Create() != nil {
+					ok = false
+				}
+			}
+			if f.Create() != nil || f.Validate() != nil {
+				ok = false
+			}
+		}()
+		if !ok {
+			t.Case(fmt.Sprintf("foreign-traces %d not-valid", i), "foreign-traces/"+optClass+"/not-valid-under-its-options (skipped)", false)
+			continue
+		}
+		checkFile(t, r, f, opts, "foreign-traces/"+optClass)
+	}
 }
 
 func kindOf(f *ach.File) string {
@@ -799,8 +877,8 @@ func checkFile(t *T, r *gen.Rand, f *ach.File, opts *ach.ValidateOpts, optClass 
 	// (b) text -> Reader -> json.Marshal -> FileFromJSON -> text.  The reader is
 	// given the file's ValidateOpts half of the time (as achcli -validate does).
 	readOpts := opts
-	if r.Bool() {
-		readOpts = nil
+	if r.Bool() && !strings.HasPrefix(optClass, "foreign-traces") {
+		readOpts = nil // (a file with foreign trace numbers is only readable under its options)
 	}
 	rd := ach.NewReader(strings.NewReader(text0))
 	rd.SetValidation(readOpts)
